@@ -41,6 +41,10 @@ func c08Catalogue() []Case {
 	out = append(out, Case{Prof: "c08", Keys: []string{"x"}, Epilogue: true, Note: "begin vs overwrite vs gc",
 		Prologue: []COp{{K: "set", Key: 0, Len: 1}},
 		Clients:  [][]COp{reader(1, 2, 1, true), {{K: "set", Key: 0, Len: 2}}, {{K: "gc"}}}})
+	// a snapshot reader that begins and re-reads while one autocommit writer overwrites the key
+	out = append(out, Case{Prof: "c08", Keys: []string{"x"}, Epilogue: true, Deep: true, Note: "begin + read + re-read || autocommit overwrite",
+		Prologue: []COp{{K: "set", Key: 0, Len: 1}},
+		Clients:  [][]COp{reader(1, 2, 1, true), {{K: "set", Key: 0, Len: 2}}}})
 	// open reader re-reading while a writer overwrites and GC runs
 	out = append(out, Case{Prof: "c08", Keys: []string{"x"}, Epilogue: true, Note: "stable re-reads vs overwrite + gc",
 		Prologue: []COp{{K: "set", Key: 0, Len: 1}, {K: "begin", Slot: 1, Lvl: 3}, {K: "get", Slot: 1, Key: 0}},
